@@ -8,6 +8,7 @@ from gallia.command import UDSDiscoveryScanner
 from gallia.command.config import AutoInt, Field
 from gallia.command.uds import UDSDiscoveryScannerConfig
 from gallia.log import get_logger
+from gallia.services.uds.core.exception import UDSException
 from gallia.services.uds.core.service import (
     DiagnosticSessionControlRequest,
     DiagnosticSessionControlResponse,
@@ -57,8 +58,13 @@ class HSFZDiscoverer(UDSDiscoveryScanner):
                     return result
                 raise
 
-            resp = DiagnosticSessionControlResponse.parse_static(raw_resp)
-            raise_for_mismatch(req, resp)
+            try:
+                resp = DiagnosticSessionControlResponse.parse_static(raw_resp)
+                raise_for_mismatch(req, resp)
+            except (ValueError, UDSException) as e:
+                # Not a response to the probe; one odd ECU must not end the whole scan.
+                logger.warning(f"{conn.dst_addr:#02x}: ignoring unexpected data {raw_resp.hex()}: {e!r}")
+                continue
             result = True
 
     async def probe(
